@@ -292,8 +292,12 @@ class Connection(Stateful):
         :return:
         """
         for channel_id in list(self._channels):
-            self._channels[channel_id].set_state(Channel.CLOSED)
-            self._channels[channel_id].close()
+            channel = self._channels.get(channel_id)
+            if channel is None:
+                # Already removed by a concurrent close.
+                continue
+            channel.set_state(Channel.CLOSED)
+            channel.close()
             self._cleanup_channel(channel_id)
 
     def _get_next_available_channel_id(self):
